@@ -18,7 +18,7 @@ def names_in(e):
 
 @rule('C10.R1', 'the resolver is called with (state the writer started from, '
       'state now committed, state the writer wants), at the resolver and at '
-      'every call site', props=['C06'], min_instances=4)
+      'every call site', props=['C06', 'C03'], min_instances=4)
 def r1(R):
     f = R.prog.func(TRY)
     g, b, F = R.cfg(f, None, max_depth=0)
